@@ -27,7 +27,7 @@ def lse(x):
     return m + np.log(np.sum(np.exp(x - m)))
 
 
-def reference(kind, data):
+def reference(kinds, data):
     """documented log-likelihood of the simulated measurements (function of sim, complex capable)"""
     n_ids, n_obs, n_t = data.shape
 
@@ -39,6 +39,7 @@ def reference(kind, data):
                 col = sim[:, r, j]
                 ys = data[:, r, j]
                 ys = ys[~np.isnan(ys)]
+                kind = kinds if isinstance(kinds, str) else kinds[j]        # (one kind per time point: composed filters)
                 if kind == 'GaussianFilter':
                     mu = np.sum(col) / ns
                     var = np.sum((col - mu) ** 2) / (ns - 1)
